@@ -4713,3 +4713,8 @@ M('C05', 'sigv4-copy-subpackets-defaulted', PK, "        spkt.subpackets = copy.
 M('C05', 'pgpsig-copy-packet-fresh', PGP, "        sig |= copy.copy(self._signature)\n        return sig", "        sig |= copy.copy(sig._signature) if sig._signature is not None else self._signature\n        return sig", 'C05.3')
 M('C05', 'capture-is-view-of-consumed-buffer', FL, "        hashed_raw = packet[:2 + hl]\n        del packet[:2]", "        hashed_raw = packet\n        del packet[:2]", 'C05.1')
 M('C05', 'replay-aliases-then-copies-on-second-call', FL, "            return bytearray(self._hashed_raw)\n", "            raw, self._hashed_raw = self._hashed_raw, bytearray(self._hashed_raw)\n            return raw\n", 'C05.2')
+# caller aliasing at full strength: binary notation values (the pre-fix form of repo commit 2e22ec2) and other mutable buffers
+M('C02', 'notation-binary-value-aliases-caller-bytearray', SS, "        else:  # pragma: no cover\n            self._value = bytearray(val)\n", "        else:  # pragma: no cover\n            self._value = val\n", 'C02.2')
+M('C02', 'notation-binary-value-aliases-unless-bytes', SS, "        else:  # pragma: no cover\n            self._value = bytearray(val)\n", "        else:  # pragma: no cover\n            self._value = val if isinstance(val, bytearray) else bytearray(val)\n", 'C02.2')
+T('C02', 'twin-notation-binary-value-slice-copy', SS, "        else:  # pragma: no cover\n            self._value = bytearray(val)\n", "        else:  # pragma: no cover\n            own = val[:]\n            self._value = own\n")
+T('C02', 'twin-notation-binary-value-copy-module', SS, "        else:  # pragma: no cover\n            self._value = bytearray(val)\n", "        else:  # pragma: no cover\n            self._value = bytearray(bytes(val))\n")
